@@ -26,21 +26,21 @@ func (t Type) String() string {
 type Op string
 
 const (
-	OpMul Op = "*"
-	OpDiv Op = "/"
-	OpMod Op = "%"
-	OpAdd Op = "+"
-	OpSub Op = "-"
+	OpMul  Op = "*"
+	OpDiv  Op = "/"
+	OpMod  Op = "%"
+	OpAdd  Op = "+"
+	OpSub  Op = "-"
 	OpBAnd Op = "&"
-	OpBOr Op = "|"
-	OpGT  Op = ">"
-	OpLT  Op = "<"
-	OpGTE Op = ">="
-	OpLTE Op = "<="
-	OpEq  Op = "=="
-	OpNEq Op = "!="
-	OpAnd Op = "&&"
-	OpOr  Op = "||"
+	OpBOr  Op = "|"
+	OpGT   Op = ">"
+	OpLT   Op = "<"
+	OpGTE  Op = ">="
+	OpLTE  Op = "<="
+	OpEq   Op = "=="
+	OpNEq  Op = "!="
+	OpAnd  Op = "&&"
+	OpOr   Op = "||"
 )
 
 // DocLevel is the precedence level of the published table in docs/en/GRL_en.md
